@@ -101,17 +101,18 @@ EXTRA = {
  "C03": "Added: C03_built_response / C03_built_attributes (the response document's fields, from the builder programs go2v translates from response.go / attributes.go), C03_delivery_from_source, C03_schema (struct tags vs the SAML schemas). The C18 correspondence rebuilds every real reply from those builders.",
  "C04": "Added: C04_redirect_url (the octets a verifier rebuilds from consumer URL + separator + query are the signed ones unless the consumer URL's own query names a signed parameter) and its refutation C04_redirect_url_refuted (F-04d, reproduced on the implementation, known), C04_signature_kind_from_source.",
  "C05": "Added: C05_keyinfo_registered (a KeyInfo the signature carries must contain a certificate registered for the provider).",
- "C06": "Added: C06_encoding / C06_unknown_encoding_refused (decode oracle opened to InflateAndDecode + parser, form read off the source by C06_decode_from_source), C06_schema.",
+ "C09": "Added: every SSO request of the structural-edit streams carries its document tree; Coq checks that the model of Unmarshal + projection (authn_of_doc) yields the abstract request the harness derived from the handler's own decoder.",
+ "C06": "Added: C06_request_view / C06_wrong_root_refused / C06_trailing_content_refused (decode = InflateAndDecode + Unmarshal model + projection; checked against the real decoder on every SSO case), C06_encoding / C06_unknown_encoding_refused (decode oracle opened to InflateAndDecode + parser, form read off the source by C06_decode_from_source), C06_schema.",
  "C08": "Added: C08_single_write, C08_terminal, C08_prechecks (delivery, terminal switch and pre-chain checks derived from the statement facts of sendBackResponse / ssoHandleFunc).",
  "C10": "Added: C10_response_key / C10_metadata_key / C10_key_guards_order (which answers of the key getters are accepted, from the guard statements of getResponseCert / getMetadataCert); the correspondence derives cert_ok / mkey_ok from the injected answer shape.",
  "C11": "Added: C11_schema (metadata struct tags vs the SAML metadata schema).",
  "C12": "Added: C12_built_response (the answer document's fields from the builder source), C12_schema.",
  "C13": "Added: C13_built_response, C13_delivery_from_source, C13_codec, C13_schema.",
  "C14": "Added: C14_oversized_not_accepted / C14_oversized_decode_fails (an oversized DEFLATE payload is never accepted by the SSO handler, with decode = InflateAndDecode + parser).",
- "C15": "Added: C15_sso_program / C15_concurrent_sso (the SSO handler as a program over atomic storage operations; N concurrent SSO requests under every schedule are answered as alone on the initial storage and never share a stored request), C15_id_legal (NewID() values are legal xs:ID).",
+ "C15": "Added: C15_sso_program / C15_concurrent_sso (the SSO handler as a program over atomic storage operations; N concurrent SSO requests under every schedule are answered as alone on the initial storage and never share a stored request), C15_id_legal (NewID() values are legal xs:ID), C15_callbacks_among_sso (callbacks for requests that existed before the run are isolated among concurrently creating SSO threads).",
  "C16": "Added: C16_member without hypothesis; C16_rule_any_metadata (exact rule for arbitrary registered metadata, entries with empty Location included).",
  "C17": "Added: C17_only_safe_schemes (any scheme other than http / https / mailto yields the fail-safe action).",
- "C18": "Added: C18_struct_document / C18_schema_names / C18_raw_xml_fields over a schema-driven model of encoding/xml's Marshal (Xml/Schema.v over the struct tags go2v copies into Gen/Schema.v); correspondence KStruct (values of random shape, byte for byte) and KBuilt (every reply of the flows rebuilt from the translated builders + schema).",
+ "C18": "Added: C18_struct_document / C18_schema_names / C18_raw_xml_fields over a schema-driven model of encoding/xml's Marshal (Xml/Schema.v over the struct tags go2v copies into Gen/Schema.v); correspondence KStruct (values of random shape, byte for byte) KBuilt (every reply of the flows rebuilt from the translated builders + schema) and KUnm (the library decoders against a model of Unmarshal over the same schema).",
  "C20": "Added: C20_repeat (n evaluations of one chain value: n times the same verdict and events), C20_handlers_use_checker (the handler models' chain evaluation is the generated checker's).",
 }
 for _k, _v in EXTRA.items():
